@@ -124,6 +124,11 @@ def _canon(s):
             if all(p.startswith("id IN (") and p.endswith(")") and _match_paren(p, 6) == len(p) - 1 for p in parts):
                 return _FIT + f" {word} ".join(sorted(parts))
         raise Ambiguous(s[:120])
+    if _JFIT in s:
+        # a junction's `str()` holding a condition whose own text has conjuncts in python-set order (inside
+        # `id NOT IN (…)`): the code sorted its conditions by that unordered text, so the order means nothing
+        word = "OR" if len(_split_top(s, "OR")) > 1 else "AND"
+        return f" {word} ".join(sorted(_split_top(s, word)))
     return s
 
 
